@@ -516,6 +516,12 @@ func fileSetVBuf(L *LState) int {
 	if n := fileIsWritable(L, file); n != 0 {
 		return n
 	}
+	// bytes already written into the current buffer stay written
+	if bwriter, ok := file.writer.(*bufio.Writer); ok {
+		if err = bwriter.Flush(); err != nil {
+			goto errreturn
+		}
+	}
 	switch filebufOptions[L.CheckOption(2, filebufOptions)] {
 	case "no":
 		switch file.Type() {
